@@ -30,7 +30,7 @@ def msgNamesOf (o : Op) : List String :=
   | "tx.consolidate" => ["goat.bitcoin.v1.MsgNewConsolidation"]
   | "tx.newvoter" => ["goat.relayer.v1.MsgNewVoterRequest"]
   | "tx.accept" => ["goat.relayer.v1.MsgAcceptProposerRequest"]
-  | "tx.ethblock" => [App.ethBlockMsg]
+  | "tx.ethblock" => ["goat.goat.v1.MsgNewEthBlock"]
   | _ => o.list "msgs"
 
 /-- the ante chain as far as it is modelled: the guard, then "valid signature and account sequence"
@@ -46,7 +46,7 @@ def ante (d : D) (o : Op) : Outcome Unit :=
     else if o.str "signerdecodes" == "0" then .err "ante:signers"
     else
     let isProp := msgSigner == d.w.rel.proposer
-    match App.guard mode (o.nat "memo") (o.nat "signers") (o.nat "timeout") (o.nat "height") (msgNamesOf o) isProp with
+    match App.guard mode (o.nat "memo") (o.nat "signers") (o.nat "timeout") (o.nat "height") ((msgNamesOf o).map App.nameOf) isProp with
     | .err e => .err ("ante:" ++ e)
     | .panic e => .panic e
     | .ok () =>
@@ -112,46 +112,74 @@ def newEthBlock (d : D) (o : Op) : Outcome D :=
                            goat := { head := { blockHash := p.blockHash, blockNumber := p.blockNumber, parentHash := p.parentHash },
                                      beaconRoot := o.bytes "headerhash" } }
 
-/-- ProcessProposal: structure of the proposal + verifyEthBlockProposal, on a throw-away branch.
-    `kinds` = per transaction: "eth" (exactly one MsgNewEthBlock), "eth+" (MsgNewEthBlock among several
-    messages), "rel" (relayer messages only); `anteok` = per transaction ante verdict. -/
+/-- ProcessProposal on a throw-away branch of the state -/
 def processProposal (d : D) (o : Op) : Outcome Unit :=
-  let kinds := o.list "kinds"
-  let anteOk := o.list "anteok"
-  if kinds.length = 0 then .err "no-txs"
-  else if kinds.length > 16 then .err "too-many"
-  else if anteOk.any (· == "0") then .err "invalid-tx"
-  else if kinds.head! ≠ "eth" then .err "first-not-ethblock"
-  else if kinds.tail.any (fun k => k == "eth" || k == "eth+") then .err "ethblock-not-first"
-  else
-    match payloadOf o with
-    | none => .err "empty-payload"
-    | some p =>
-      let proposer := o.bytes "proposer"
-      if proposer ≠ o.bytes "comet" then .err "proposer"
-      else if proposer ≠ p.feeRecipient then .err "fee-recipient"
-      else if p.timestampInFuture then .err "timestamp"
-      else if d.goat.head.blockHash ≠ p.parentHash then .err "parent"
-      else if d.goat.head.blockNumber + 1 ≠ p.blockNumber then .err "parent"
-      else if o.str "reqdecode" == "err" then .err "requests-decode"
-      else if (o.list "gas").length ≠ 1 then .err "gas-length"
-      else if d.goat.beaconRoot ≠ p.beaconRoot then .err "beacon-root"
-      else
-        match dueTxs d.w with
-        | .err e => .err e
-        | .panic e => .panic e
-        | .ok (_, _, dueB, dueL) =>
-          match App.verifyDequeue p.extraData p.txs dueB dueL with
-          | .err e => .err e
-          | .panic e => .panic e
-          | .ok () =>
-            if o.str "newstatus" != "VALID" then .err "engine" else .ok ()
+  match dueTxs d.w with
+  | .err e => .err e
+  | .panic e => .panic e
+  | .ok (_, _, dueB, dueL) =>
+    App.processProposal d.goat dueB dueL
+      { kinds := o.list "kinds", anteOk := (o.list "anteok").map (· != "0"), payload := payloadOf o,
+        proposer := o.bytes "proposer", comet := o.bytes "comet", reqDecodeOk := o.str "reqdecode" != "err",
+        gasRequests := (o.list "gas").length, engineStatus := o.str "newstatus" }
 
 def res {α} (r : Outcome α) : String :=
   match r with
   | .ok _ => "ok"
   | .err e => "err ;; " ++ e
   | .panic e => "panic ;; " ++ e
+
+/-- One transaction as baseapp runs it: the ante chain, then the message handler on a cached branch
+    of the state that is written back only when the handler answers without error or panic. -/
+def runTx (d : D) (o : Op) : D × String :=
+  match ante d o with
+  | .err e => (d, "=> err ;; " ++ e)
+  | .panic e => (d, "=> panic ;; " ++ e)
+  | .ok () =>
+    if o.kind == "tx.ethblock" then
+      match newEthBlock d o with
+      | .ok d' => (d', "=> ok")
+      | .err e => (d, "=> err ;; " ++ e)
+      | .panic e => (d, "=> panic ;; " ++ e)
+    else if o.kind == "tx.generic" then (d, "=> guard-passed")
+    else ({ d with w := (txStep d.w o).1 }, (txStep d.w o).2)
+
+/-- a block that does not commit: the state saved at `a.blockstart` comes back -/
+def failBlock (d : D) (eng : List String) (cls : String) : D × Bool × String :=
+  match d.snap with
+  | some (w0, g0) => ({ d with w := w0, goat := g0, snap := none, halting := false, failed := none }, false, "=> halt eng=" ++ lst eng ++ " ;; " ++ cls)
+  | none => ({ d with halting := false, failed := none }, false, "=> halt eng=" ++ lst eng ++ " ;; " ++ cls)
+
+/-- End of a block: relayer election, engine notification (`Finalized`), validator updates.  Returns
+    the new driver state, whether the block is committed, and the canonical outcome line.  A block
+    that is not committed leaves exactly the state saved at `a.blockstart`. -/
+def endBlock (d : D) (time : Int) (newStatus fcuStatus : String) : D × Bool × String :=
+  let rc := relCrypto d.w.o
+  let np := "np:" ++ toHex (fitLeft 32 d.goat.head.blockHash)
+  let fcu := "fcu:" ++ toHex (fitLeft 32 d.goat.head.blockHash) ++ "/" ++ toHex (fitLeft 32 d.goat.head.parentHash) ++ "/" ++ toHex (fitLeft 32 d.goat.head.parentHash)
+  let npFails := newStatus == "ERROR" || newStatus == "INVALID"
+  let fail := failBlock d
+  match d.failed with
+  | some cls => fail [] cls
+  | none =>
+  match Relayer.endBlocker rc d.w.rel time with
+  | .err e => fail [] e
+  | .panic e => fail [] e
+  | .ok rel =>
+    match App.finalized newStatus fcuStatus with
+    | .err e => fail (if npFails then [np] else [np, fcu]) e
+    | .panic e => fail [np] e
+    | .ok () =>
+      match Locking.endBlocker d.w.lock with
+      | .err e => fail [np, fcu] e
+      | .panic e => fail [np, fcu] e
+      | .ok (lk, ups) =>
+        let ss := sortStr (ups.map (fun u => s!"{toHex u.pubkey}|{u.power}"))
+        let (cs, cres) := match Comet.apply d.w.comet (ups.map (fun u => (u.pubkey, Comet.toInt64 u.power))) with
+          | .ok cs => (cs, "comet=ok")
+          | .error e => (d.w.comet, "comet=err:" ++ e)
+        ({ d with w := { d.w with rel := rel, lock := lk, comet := cs }, snap := none, halting := false, failed := none }, true,
+          "=> ok ups=" ++ lst ss ++ " eng=" ++ lst [np, fcu] ++ " ;; " ++ cres)
 
 def step (d : D) (o : Op) : D × String :=
   match o.kind with
@@ -174,59 +202,12 @@ def step (d : D) (o : Op) : D × String :=
   | "a.checktx" =>
     -- CheckTx runs the ante chain only
     (d, "=> " ++ res (ante d o))
-  | "a.end" =>
-    -- end of block: relayer election, engine notification, validator updates
-    let rc := relCrypto d.w.o
-    let np := "np:" ++ toHex (fitLeft 32 d.goat.head.blockHash)
-    let fcu := "fcu:" ++ toHex (fitLeft 32 d.goat.head.blockHash) ++ "/" ++ toHex (fitLeft 32 d.goat.head.parentHash) ++ "/" ++ toHex (fitLeft 32 d.goat.head.parentHash)
-    let npFails := o.str "newstatus" == "ERROR" || o.str "newstatus" == "INVALID"
-    let fail (eng : List String) (cls : String) : D × String :=
-      match d.snap with
-      | some (w0, g0) => ({ d with w := w0, goat := g0, snap := none, halting := false, failed := none }, "=> halt eng=" ++ lst eng ++ " ;; " ++ cls)
-      | none => ({ d with halting := false, failed := none }, "=> halt eng=" ++ lst eng ++ " ;; " ++ cls)
-    match d.failed with
-    | some cls => fail [] cls
-    | none =>
-    match Relayer.endBlocker rc d.w.rel (o.int "time") with
-    | .err e => fail [] e
-    | .panic e => fail [] e
-    | .ok rel =>
-      match App.finalized (o.str "newstatus") (o.str "fcustatus") with
-      | .err e => fail (if npFails then [np] else [np, fcu]) e
-      | .panic e => fail [np] e
-      | .ok () =>
-        match Locking.endBlocker d.w.lock with
-        | .err e => fail [np, fcu] e
-        | .panic e => fail [np, fcu] e
-        | .ok (lk, ups) =>
-          let ss := sortStr (ups.map (fun u => s!"{toHex u.pubkey}|{u.power}"))
-          let (cs, cres) := match Comet.apply d.w.comet (ups.map (fun u => (u.pubkey, Comet.toInt64 u.power))) with
-            | .ok cs => (cs, "comet=ok")
-            | .error e => (d.w.comet, "comet=err:" ++ e)
-          ({ d with w := { d.w with rel := rel, lock := lk, comet := cs }, snap := none, halting := false, failed := none },
-            "=> ok ups=" ++ lst ss ++ " eng=" ++ lst [np, fcu] ++ " ;; " ++ cres)
-  | "tx.ethblock" =>
-    let out (r : D × String) : D × String := if d.halting then (r.1, "=> n/a") else r
-    match ante d o with
-    | .err e => out (d, "=> err ;; " ++ e)
-    | .panic e => out (d, "=> panic ;; " ++ e)
-    | .ok () =>
-      match newEthBlock d o with
-      | .ok d' => out (d', "=> ok")
-      | r => out (d, "=> " ++ res r)
-  | "tx.generic" =>
-    let out (r : D × String) : D × String := if d.halting then (r.1, "=> n/a") else r
-    match ante d o with
-    | .err e => out (d, "=> err ;; " ++ e)
-    | .panic e => out (d, "=> panic ;; " ++ e)
-    | .ok () => out (d, "=> guard-passed")
+  | "a.end" => let r := endBlock d (o.int "time") (o.str "newstatus") (o.str "fcustatus"); (r.1, r.2.2)
+  | "tx.raw" => (d, if d.halting then "=> n/a" else "=> err ;; undecodable")
   | _ =>
     if o.kind.startsWith "tx." then
-      let out (r : D × String) : D × String := if d.halting then (r.1, "=> n/a") else r
-      match ante d o with
-      | .err e => out (d, "=> err ;; " ++ e)
-      | .panic e => out (d, "=> panic ;; " ++ e)
-      | .ok () => let (w', r) := World.step d.w o; out ({ d with w := w' }, r)
+      let r := runTx d o
+      if d.halting then (r.1, "=> n/a") else r
     else if o.kind.startsWith "hook." && d.snap.isSome then
       -- a block hook inside a block: a failure means the block is not committed
       let (w', r) := World.step d.w o
